@@ -107,6 +107,10 @@ impl<H: HashChain> HssPrivateKey<H> {
         let moved = core::mem::take(aux_data);
         *aux_data = &mut moved[..aux_len];
 
+        // A buffer that is not in use yet carries no authenticated content: clear it, so that
+        // leftover bytes can never be read back as cached tree nodes.
+        aux_data.iter_mut().for_each(|byte| *byte = 0);
+
         let aux_level = hss_optimal_aux_level(aux_len, *top_lms_parameter, None);
         hss_store_aux_marker(aux_data, aux_level);
 
